@@ -27,3 +27,10 @@ CD = dict(unit="mfsd_attr_cdf_u.c", file="mfhdf/src/cdf.c", mode="bounded",
 ob("attr_reopen_b", ["C10"], entry="h_attr_reopen", **CD)
 # the same checks on the complement of that input
 ob("attr_reopen_rest_b", ["C10"], entry="h_attr_reopen_rest", **CD)
+
+# dimension scales: how many values SDgetdimscale asks the I/O layer for (unit of the SD routing obligations)
+ob("SDgetdimscale", ["C10"], entry="h_SDgetdimscale", unit="mfsd_rw_u.c", file="mfhdf/src/mfsd.c", mode="proved-finite", unwind=6,
+   bound="files of 1..2 variables of rank 1..4 (environment of the SD routing obligations); one dimension", objbits=8, cex_unwind=10,
+   replace=["SDIgetcoordvar"], defines=["MAXR=4"],
+   trusted=["NC_check_id", "Hendaccess", "NCvario(stub: logs file, variable, buffer, start / count of dimension 0)",
+            "SDIgetcoordvar: ASSUMED contract (index of the dimension's coordinate variable, or FAIL)"])
